@@ -460,6 +460,14 @@ func c03RequestIn(c *core.Ctx, f *flow.Func, sc *c03scope, stores []*c03hdrStore
 			}
 		}
 	}
+	streamKnown := func(st *flow.State) bool {
+		for _, sc := range streamCalls {
+			if st.Is(f.CallKey(sc), flow.True) {
+				return true
+			}
+		}
+		return false
+	}
 	excused := func(st *flow.State) bool {
 		mirror := false
 		for _, k := range mirrorKeys {
@@ -536,9 +544,16 @@ func c03RequestIn(c *core.Ctx, f *flow.Func, sc *c03scope, stores []*c03hdrStore
 			return
 		}
 		st.Set(evPayOrig, flow.Unknown)
-		if excused(st) {
+		st.Set("ev:payload:mirror?", flow.Unknown)
+		switch {
+		case excused(st):
 			st.Set(evPayBad, flow.Unknown)
-		} else {
+		case len(mirrorKeys) == 0 && streamKnown(st):
+			// no boolean parameter in sight: the mirror case may have been split off into a
+			// function of its own — a replaced stream body there cannot be told from a wrong body
+			st.Set(evPayBad, flow.Unknown)
+			st.Set("ev:payload:mirror?", flow.True)
+		default:
 			st.Set(evPayBad, flow.True)
 		}
 	}
@@ -635,9 +650,13 @@ func c03RequestIn(c *core.Ctx, f *flow.Func, sc *c03scope, stores []*c03hdrStore
 	} else if payVar == nil {
 		c.Violate("R-C03-4", name+"|body", pos(c, newReq), "the outbound body is not the inbound request's GetPayload(): the backend receives other body bytes than the client sent")
 	} else {
-		var bad *flow.State
+		var bad, maybeMirror *flow.State
 		direct, atCall := paySites[newReq]
 		for _, st := range res.At[newReq] {
+			if st.Is("ev:payload:mirror?", flow.True) {
+				maybeMirror = st
+				continue
+			}
 			if atCall {
 				// the argument expression itself decides (states at a call are recorded before it)
 				if !(direct != nil && inCall(direct, "GetPayload")) && !excused(st) {
@@ -651,9 +670,13 @@ func c03RequestIn(c *core.Ctx, f *flow.Func, sc *c03scope, stores []*c03hdrStore
 				break
 			}
 		}
-		c.Check(bad == nil, "R-C03-4", name+"|body", pos(c, newReq),
-			"the body is GetPayload() of the inbound request on every path except mirror+stream",
-			"on some path other than mirror+stream the outbound body is not the inbound request's GetPayload(): the backend receives other body bytes than the client sent", witness(bad)...)
+		if bad == nil && maybeMirror != nil {
+			c.Undecide("R-C03-4", name+"|body", pos(c, newReq), "a stream body is replaced in a builder without a mirror flag: cannot tell a mirror-only builder from a wrong body")
+		} else {
+			c.Check(bad == nil, "R-C03-4", name+"|body", pos(c, newReq),
+				"the body is GetPayload() of the inbound request on every path except mirror+stream",
+				"on some path other than mirror+stream the outbound body is not the inbound request's GetPayload(): the backend receives other body bytes than the client sent", witness(bad)...)
+		}
 	}
 	// --- header argument
 	c.Check(hdrArgOK, "R-C03-4", name+"|header source", pos(c, stores[0].assign),
@@ -804,12 +827,71 @@ func c03AddrClassifier(c *core.Ctx) {
 	// — for a field of the pool's spec — by a covering loop where the pool is constructed
 	k := &c03cls{c: c, writers: writers}
 	sites := 0
+	// the load-balancer constructors, by role: functions/methods of the package that take a
+	// []*Server and return a LoadBalancer (the interface or an implementation of it). A call
+	// site is a call to one of them from a function that is not itself such a constructor
+	// (NewLoadBalancer → newRoundRobinLoadBalancer …, or a thin wrapper over a spec method).
+	lbIface, _ := func() (*types.Interface, bool) {
+		nt := namedType(c, c03px, "LoadBalancer")
+		if nt == nil {
+			return nil, false
+		}
+		it, ok := nt.Underlying().(*types.Interface)
+		return it, ok
+	}()
+	serverT := namedType(c, c03px, "Server")
+	isServers := func(t types.Type) bool {
+		sl, ok := t.(*types.Slice)
+		if !ok || serverT == nil {
+			return false
+		}
+		p, ok := sl.Elem().(*types.Pointer)
+		return ok && types.Identical(p.Elem(), serverT)
+	}
+	ctorArg := map[types.Object]int{} // constructor → index of its []*Server parameter
+	if lbIface != nil {
+		for _, g := range funcsByRole(c, c03px, func(g *flow.Func, fd *ast.FuncDecl) bool { return true }) {
+			fo, ok := g.Info.Defs[g.Node.(*ast.FuncDecl).Name].(*types.Func)
+			if !ok {
+				continue
+			}
+			sig := fo.Type().(*types.Signature)
+			if sig.Results().Len() != 1 {
+				continue
+			}
+			rt := sig.Results().At(0).Type()
+			if !types.Implements(rt, lbIface) && !types.Identical(rt.Underlying(), lbIface) {
+				continue
+			}
+			for i := 0; i < sig.Params().Len(); i++ {
+				if isServers(sig.Params().At(i).Type()) {
+					ctorArg[fo] = i
+				}
+			}
+		}
+	}
 	eachFunc(c, func(pkg *packages.Package, fd *ast.FuncDecl) {
 		if relPkg(pkg.PkgPath) != c03px {
 			return
 		}
+		if _, isCtor := ctorArg[pkg.TypesInfo.Defs[fd.Name]]; isCtor {
+			return
+		}
 		f := funcOf(pkg, fd)
-		lbCalls := callsTo(f, fd.Body, false, c03px+".NewLoadBalancer")
+		type lbSite struct {
+			call *ast.CallExpr
+			arg  ast.Expr
+		}
+		var lbCalls []lbSite
+		for _, call := range calls(fd.Body, true) {
+			fo, ok := f.Callee(call).(*types.Func)
+			if !ok {
+				continue
+			}
+			if i, isCtor := ctorArg[fo.Origin()]; isCtor && i < len(call.Args) {
+				lbCalls = append(lbCalls, lbSite{call, call.Args[i]})
+			}
+		}
 		if len(lbCalls) == 0 {
 			return
 		}
@@ -818,14 +900,17 @@ func c03AddrClassifier(c *core.Ctx) {
 		for _, lb := range lbCalls {
 			sites++
 			cons := name + "|servers classified before NewLoadBalancer"
-			if len(lb.Args) != 2 {
-				c.Undecide("R-C03-5", cons, pos(c, lb), "unexpected argument count")
-				continue
+			// a call inside a function literal is analysed in its literal
+			unit := f
+			for _, u := range c03units(f) {
+				if u != f && contains(u.Node, lb.call) {
+					unit = u
+				}
 			}
-			r := k.at(f, lb, lb.Args[1], 0)
+			r := k.at(unit, lb.call, lb.arg, 0)
 			switch r.verdict {
 			case "ok":
-				c.Discharge("R-C03-5", cons, pos(c, lb), r.why)
+				c.Discharge("R-C03-5", cons, pos(c, lb.call), r.why)
 			case "bad":
 				c.Violate("R-C03-5", cons, pos(c, r.at), r.why, witness(r.st)...)
 			default:
@@ -833,7 +918,7 @@ func c03AddrClassifier(c *core.Ctx) {
 			}
 		}
 	})
-	c.RequireCount("R-C03-5", "NewLoadBalancer call sites in "+c03px, sites, 1)
+	c.RequireCount("R-C03-5", "load-balancer constructor call sites in "+c03px, sites, 1)
 }
 
 // c03classifierValue decides that the value stored to addrIsHostName by `store` is
